@@ -1,7 +1,7 @@
 (* Props/C07.v — C07: the CSS lexer follows the CSS Syntax token grammar; IsIdent / IsURLUnquoted agree
    with it.  Also holds the CSS-lexer instances of C01 (no crash / hang / over-read) and C02 (tokens are
    faithful slices).  Statements only; each is closed by [exact] of a lemma proved under Css/. *)
-From Verif Require Import Common.Base Common.Lx Css.Model Css.Proofs Css.Agree Css.Relex Css.Classes.
+From Verif Require Import Common.Base Common.Lx Css.Model Css.Proofs Css.Agree Css.Relex Css.Classes Css.Shape.
 
 (* C01: from every state reachable between two calls, Next returns (no panic: no read outside the
    buffer data ++ [0]) and re-establishes the invariant. *)
@@ -97,8 +97,24 @@ Print Assumptions css_relex_idempotent.
    identifier "u"/"U" may be followed by "+" exactly when what follows the "+" is not a unicode range (range_fails:
    no or more than six hex digits/"?", or a "-" with no or more than six hex digits on either side) - the lexer
    then returns the identifier "u" alone.
-   Not claimed: the converse (that every output of the lexer satisfies tok_spec). *)
+   The converse is css_tokens_shaped below, for the token types listed there. *)
 Theorem css_token_sequences : forall toks, seq_ok toks ->
   css_lex (concat (map snd toks)) = LexDone toks.
 Proof. exact css_token_sequences_proof. Qed.
 Print Assumptions css_token_sequences.
+
+(* C07 (converse of css_token_sequences, for part of the token types): every token the lexer returns whose type is
+   one of the types of shaped has the shape of that type, a predicate on the token's bytes alone (tok_spec's
+   constructor bodies without the follower conditions):
+   Whitespace: a non-empty run of whitespace bytes; Comment: "/*", a body without "*/", and then either "*/" or
+   nothing (only the last token of the input can be of the second form, by css_tiling and css_relex_idempotent);
+   Colon, Semicolon, Comma, the six brackets, the five match operators, Column, CDO, CDC: exactly their bytes
+   (fixed_tokens); Delim: one byte; Number: the number diagram num_text ([+-]? (digits ('.' digits)? | '.' digits)
+   ([eE] [+-]? digits)?); Percentage: num_text followed by "%"; UnicodeRange: [uU] "+" and either 1..6 hex digits
+   and "?" (hex digits first), or two runs of 1..6 hex digits around "-" (ur_shape).
+   MISSING (shaped ty = false, nothing is claimed): Ident, CustomPropertyName, Function, AtKeyword, Hash, Dimension
+   (its unit is a name), String, BadString, URL, BadURL - the types whose text can contain escapes. *)
+Theorem css_tokens_shaped : forall d toks ty b, css_lex d = LexDone toks -> In (ty, b) toks ->
+  shaped ty = true -> tok_shape ty b.
+Proof. exact css_tokens_shaped_proof. Qed.
+Print Assumptions css_tokens_shaped.
